@@ -608,12 +608,20 @@ struct Win {
     ents: Vec<(KO, VO)>,
     hid: usize,
     hsum: u64,
+    /// checksum over the hidden KEY objects alone (what a `keys()` traversal can show)
+    hksum: u64,
+}
+fn kv_digest(k: &Key, v: &Val) -> u64 {
+    mix(mix(mix(mix(k.serial as u64, k.cls.class as u64), k.ver as u64), v.serial as u64), v.content as u64).wrapping_add(((k.magic as u64) << 32) ^ v.magic as u64)
+}
+fn k_digest(k: &Key) -> u64 {
+    mix(mix(k.serial as u64, k.cls.class as u64), k.ver as u64).wrapping_add((k.magic as u64) << 32)
 }
 
 fn observe_window<const N: usize>(m: &Map<Key, Val, N>, pool: &[Cls]) -> Win {
     let _q = ledger::Quiet::new();
     let mut ents = vec![];
-    let (mut hid, mut hsum) = (0usize, 0u64);
+    let (mut hid, mut hsum, mut hksum) = (0usize, 0u64, 0u64);
     // one pass over the slots: reading fields, no callbacks
     let mut found: Vec<Option<(KO, VO)>> = vec![None; pool.len()];
     for (k, v) in m.iter() {
@@ -621,16 +629,115 @@ fn observe_window<const N: usize>(m: &Map<Key, Val, N>, pool: &[Cls]) -> Win {
             Some(i) if found[i].is_none() => found[i] = Some((ko(k), vo(v))),
             _ => {
                 hid += 1;
-                let e = mix(mix(mix(mix(k.serial as u64, k.cls.class as u64), k.ver as u64), v.serial as u64), v.content as u64);
-                hsum = hsum.wrapping_add(e);
-                hsum = hsum.wrapping_add(((k.magic as u64) << 32) ^ v.magic as u64);
+                hsum = hsum.wrapping_add(kv_digest(k, v));
+                hksum = hksum.wrapping_add(k_digest(k));
             }
         }
     }
     for f in found.into_iter().flatten() {
         ents.push(f);
     }
-    Win { ents, hid, hsum }
+    Win { ents, hid, hsum, hksum }
+}
+
+/// A complete traversal with a borrowing cursor: the watched entries it yields are listed, the hidden ones
+/// are counted and summed up (the same digest as the window's), exactness of len() / size_hint() before
+/// every step and `None` after the end are recorded as instrument notes.
+fn cursor_all<const N: usize>(m: &mut Map<Key, Val, N>, kind: &str, pool: &[Cls], ctx: &mut Ctx) -> Value {
+    let mut win: Vec<Value> = vec![];
+    let (mut hc, mut hs, mut count) = (0usize, 0u64, 0usize);
+    let mut inexact = 0usize;
+    let mut late = 0usize;
+    let span = ctx.span;
+    let mut outside = 0usize;
+    let tags = &ctx.tags;
+    macro_rules! sweep {
+        ($it:expr, $kv:expr) => {{
+            let mut it = $it;
+            ledger::arm();
+            let r = std::panic::catch_unwind(std::panic::AssertUnwindSafe(|| {
+                let mut expect = it.len();
+                loop {
+                    let (l, sh) = (it.len(), it.size_hint());
+                    if l != expect || sh != (l, Some(l)) {
+                        inexact += 1;
+                    }
+                    let x = match it.next() {
+                        Some(x) => x,
+                        None => break,
+                    };
+                    expect = expect.saturating_sub(1);
+                    let _s = ledger::Suspend::new();
+                    let (k, v): (&Key, Option<&Val>) = $kv(x);
+                    count += 1;
+                    let ka = k as *const Key as usize;
+                    if ka < span.0 || ka + std::mem::size_of::<Key>() > span.1 {
+                        outside += 1;
+                    }
+                    if pool.contains(&k.cls.class) {
+                        k.check("yielded key");
+                        match v {
+                            Some(v) => {
+                                v.check("yielded value");
+                                win.push(json!([tags.ktag(k.serial), k.cls.class, k.ver, tags.vtag(v.serial), v.content]))
+                            }
+                            None => win.push(json!([tags.ktag(k.serial), k.cls.class, k.ver])),
+                        }
+                    } else {
+                        hc += 1;
+                        hs = hs.wrapping_add(match v {
+                            Some(v) => kv_digest(k, v),
+                            None => k_digest(k),
+                        });
+                    }
+                }
+                for _ in 0..2 {
+                    if it.next().is_some() {
+                        late += 1;
+                    }
+                }
+            }));
+            let na = ledger::disarm();
+            (r.is_ok(), na)
+        }};
+    }
+    let (ok, na) = match kind {
+        "iter" => {
+            fn pair<'a>(x: (&'a Key, &'a Val)) -> (&'a Key, Option<&'a Val>) {
+                (x.0, Some(x.1))
+            }
+            sweep!(m.iter(), pair)
+        }
+        "iter_mut" => {
+            fn shared<'a>(x: (&'a Key, &'a mut Val)) -> (&'a Key, Option<&'a Val>) {
+                (x.0, Some(&*x.1))
+            }
+            sweep!(m.iter_mut(), shared)
+        }
+        _ => {
+            fn konly(k: &Key) -> (&Key, Option<&Val>) {
+                (k, None)
+            }
+            sweep!(m.keys(), konly)
+        }
+    };
+    if !ok {
+        ctx.panicked = true;
+        return json!(["panic"]);
+    }
+    if na > 0 {
+        ctx.note("C06", format!("{na} allocator call(s) inside a complete traversal"));
+    }
+    if inexact > 0 {
+        ctx.note("C09", format!("len() / size_hint() were not exact before {inexact} step(s) of a complete {kind} traversal"));
+    }
+    if late > 0 {
+        ctx.note("C09", format!("{kind}: an item was yielded after the end"));
+    }
+    if outside > 0 {
+        ctx.note("C06", format!("{kind}: {outside} yielded reference(s) point outside the container value"));
+    }
+    json!({"win": win, "hc": hc, "hs": format!("{:016x}", hs), "count": count})
 }
 
 impl Gen {
@@ -663,7 +770,7 @@ impl Gen {
                 let nm = ["remove", "remove_entry"][self.rng.gen_range(0..2)];
                 json!({"name": nm, "c": cls(self), "form": self.rng.gen_range(0..2)})
             }
-            54..=79 => {
+            54..=76 => {
                 let ms = [
                     "key", "or_insert", "or_insert_with", "or_insert_with_key", "or_default", "and_modify", "occ_key", "occ_get",
                     "occ_get_mut", "occ_into_mut", "occ_insert", "occ_remove", "occ_remove_entry", "vac_key", "vac_into_key", "vac_insert",
@@ -672,7 +779,23 @@ impl Gen {
                 let w = if matches!(m, "and_modify" | "occ_get_mut" | "occ_into_mut") { self.rng.gen_range(0..self.vals) as i64 } else { NO_WRITE };
                 json!({"name": "entry", "m": m, "k": {"kt": TARG + 1, "c": cls(self), "r": self.rng.gen_range(0..2)}, "v": self.v(1), "w": w})
             }
-            80..=84 => {
+            77..=79 => {
+                let kind = ["iter", "iter_mut", "keys"][self.rng.gen_range(0..3)];
+                json!({"name": "cursor_all", "kind": kind})
+            }
+            80..=81 => {
+                // retain that rejects some watched keys and keeps everything else
+                let (mut keep, mut reject) = (vec![], vec![]);
+                for c in pool {
+                    if present.contains(c) && self.rng.gen_bool(0.25) {
+                        reject.push(*c)
+                    } else {
+                        keep.push(*c)
+                    }
+                }
+                json!({"name": "retain", "keep": keep, "reject": reject, "w": NO_WRITE})
+            }
+            82..=84 => {
                 // only inside its contract: room left, or the key is present
                 json!({"name": "insert_unchecked", "k": {"kt": TARG + 1, "c": cls(self), "r": self.rng.gen_range(0..2)}, "v": self.v(1), "contract": true})
             }
@@ -734,7 +857,12 @@ fn run_map_window<const N: usize>(g: &mut Gen, steps: usize, out: &mut impl Writ
         }
         let s: Vec<Value> = pre.ents.iter().map(|(k, v)| json!([k.class, k.ver, v.content])).collect();
         ledger::mark();
-        let ret = no_nulls(exec_map(&mut cage, &op, &mut ctx));
+        let ret = if op["name"] == "cursor_all" {
+            ctx.span = cage.span();
+            cursor_all(&mut cage.m, op["kind"].as_str().unwrap(), &pool, &mut ctx)
+        } else {
+            no_nulls(exec_map(&mut cage, &op, &mut ctx))
+        };
         if ctx.panicked {
             panics += 1;
         }
@@ -746,7 +874,7 @@ fn run_map_window<const N: usize>(g: &mut Gen, steps: usize, out: &mut impl Writ
         let mut viol: Vec<String> = vec![];
         if !cage.intact() || len > N {
             viol.push("memory outside the container was written or len() exceeds capacity()".into());
-            writeln!(out, "{}", json!({"n": N, "mode": "map", "s": s, "o": op, "r": ret, "p": [], "dk": [], "dv": [], "lk": [], "lv": [], "len": len, "empty": false, "viol": viol, "injected": false, "hid": pre.hid, "hid2": 0, "hsum": "", "hsum2": "x"})).unwrap();
+            writeln!(out, "{}", json!({"n": N, "mode": "map", "s": s, "o": op, "r": ret, "p": [], "dk": [], "dv": [], "lk": [], "lv": [], "len": len, "empty": false, "viol": viol, "injected": false, "hid": pre.hid, "hid2": 0, "hsum": "", "hsum2": "x", "hksum": ""})).unwrap();
             std::mem::forget(cage);
             return (events + 1, panics, json!({"pool": pool}));
         }
@@ -777,15 +905,28 @@ fn run_map_window<const N: usize>(g: &mut Gen, steps: usize, out: &mut impl Writ
             "{}",
             json!({"n": N, "mode": "map", "s": s, "o": op, "r": ret, "p": p, "dk": dk, "dv": dv, "lk": lk, "lv": lv,
                    "len": len, "empty": cage.m.is_empty(), "viol": viol, "injected": false,
-                   "hid": pre.hid, "hid2": post.hid, "hsum": format!("{:016x}", pre.hsum), "hsum2": format!("{:016x}", post.hsum)})
+                   "hid": pre.hid, "hid2": post.hid, "hsum": format!("{:016x}", pre.hsum), "hsum2": format!("{:016x}", post.hsum),
+                   "hksum": format!("{:016x}", pre.hksum)})
         )
         .unwrap();
         events += 1;
         drop(ctx);
     }
     {
-        // the final drop of 65 000+ instrumented pairs: every object exactly once (the ledger flags the rest)
-        drop(cage);
+        // the final drop of 65 000+ instrumented pairs: every object exactly once - what the ledger saw, and
+        // every object that is still alive without being held by anybody, goes into a last event
+        let viol_before = ledger::with(|l| l.viol.len());
+        let r = std::panic::catch_unwind(std::panic::AssertUnwindSafe(|| drop(cage)));
+        let mut viol: Vec<String> = ledger::with(|l| l.viol.iter().skip(viol_before).cloned().collect());
+        if r.is_err() {
+            viol.push("dropping the container panicked".into());
+        }
+        let lost = ledger::with(|l| l.alive.keys().filter(|s| !leaked.contains(s)).count());
+        if lost > 0 {
+            viol.push(format!("{lost} object(s) are still alive after the container was dropped: neither handed out nor destroyed"));
+        }
+        writeln!(out, "{}", json!({"o": {"name": "final_drop"}, "n": N, "mode": "map", "viol": viol})).unwrap();
+        events += 1;
     }
     (events, panics, json!({"pool": pool, "highest_slot_holding_a_watched_key": max_index_touched, "filled": fill}))
 }
